@@ -226,6 +226,7 @@ func ccbAcceptCase(label string, gs []ccbGreet, old []string) *ccbOut {
 	defer func() {
 		if r := recover(); r != nil {
 			o.violations = append(o.violations, Violation{Property: "C13", Key: "C13:panic:ccb-accept", What: fmt.Sprint("panic: ", r), Ops: o.cs.Ops})
+			o.count("harness-panic-swallowed") // the case is lost for C20 whoever panicked: ./check reports it
 		}
 	}()
 	id, _ := ccb.GenerateConnectID()
@@ -363,6 +364,7 @@ func ccbProxyCase(label string, reply string, msg string, hello ccbGreet, old []
 	defer func() {
 		if r := recover(); r != nil {
 			o.violations = append(o.violations, Violation{Property: "C13", Key: "C13:panic:ccb-proxy", What: fmt.Sprint("panic: ", r), Ops: o.cs.Ops})
+			o.count("harness-panic-swallowed") // the case is lost for C20 whoever panicked: ./check reports it
 		}
 	}()
 	id, _ := ccb.GenerateConnectID()
@@ -556,6 +558,7 @@ func ccbDialCase(sp ccbDialSpec, old []string) *ccbOut {
 	defer func() {
 		if r := recover(); r != nil {
 			o.violations = append(o.violations, Violation{Property: "C13", Key: "C13:panic:ccb-dial", What: fmt.Sprint("panic: ", r), Ops: o.cs.Ops})
+			o.count("harness-panic-swallowed") // the case is lost for C20 whoever panicked: ./check reports it
 		}
 	}()
 	wctx, wcancel := context.WithCancel(bg)
@@ -1353,6 +1356,19 @@ func runCcb(c *Ctx) error {
 	var cases []Case
 	samples := map[string]bool{}
 	for _, o := range outs {
+		// planned vs run, per layer: a case whose world could not be set up, that was skipped because the
+		// machine was too busy for its clock, or that was dropped after ten violations did not run
+		planLayer := "unknown"
+		if o != nil {
+			planLayer = strings.SplitN(o.cs.Label, "/", 2)[0]
+			if strings.HasPrefix(planLayer, "dial") {
+				planLayer = "dial"
+			}
+		}
+		c.Planned("ccb-"+planLayer+"-cases", 1)
+		if o != nil && len(o.cs.Ops) > 0 {
+			c.Ran("ccb-"+planLayer+"-cases", 1)
+		}
 		if o == nil || len(o.cs.Ops) == 0 {
 			c.Count("skipped")
 			if o != nil {
